@@ -91,10 +91,12 @@ func (srv *Server) ListenAndServe() error {
 
 func acceptTransports(ctx context.Context, listener TransportListener, c chan<- Transport) error {
 	for {
+		verifPoint("accept:before-accept")
 		transport, err := listener.Accept(ctx)
 		if err != nil {
 			return err
 		}
+		verifPoint("accept:before-send")
 		select {
 		case <-ctx.Done():
 			return ctx.Err()
@@ -105,6 +107,7 @@ func acceptTransports(ctx context.Context, listener TransportListener, c chan<- 
 
 func (srv *Server) consumeTransports(ctx context.Context) {
 	for {
+		verifPoint("consume:before-select")
 		select {
 		case <-ctx.Done():
 			return
@@ -168,6 +171,7 @@ func (srv *Server) Close() error {
 
 	srv.shutdown()
 	srv.shutdown = nil
+	verifPoint("close:after-cancel")
 
 	var errs []error
 
